@@ -26,6 +26,11 @@ def parseLoc (j : Json) : Except String Loc := do
   | "line" => pure (.line (← getStr j "path") (← getInt j "line"))
   | "func" => pure (.func (← getStr j "path") (← getStr j "name"))
   | "nosource" => pure (.nosource (← getStr j "path"))
+  | "nameless" =>
+    let bl ← (← getArr j "blocks").toList.mapM (fun b => do
+      let a ← b.getArr?
+      pure ((← a[0]!.getStr?), (← a[1]!.getInt?), (← a[2]!.getInt?)))
+    pure (.nameless (← getStr j "path") bl)
   | t => throw s!"unknown location type {t}"
 
 def parseTp (j : Json) : Except String Tp := do
@@ -103,12 +108,12 @@ def handleRun (j : Json) : Except String Json := do
   -- every thread alone; `empty_at n`: the installed tracepoint list is replaced by the empty list before event n
   let alone := threads.map (fun (evs, ea) =>
     match ea with
-    | none => run cfg none evs
+    | none => (runS cfg none evs).1      -- the installed triggers are state (a nameless location settles)
     | some n =>
       let r1 := run cfg none (evs.take n)
       let r2 := run [] r1.1 (evs.drop n)
       (r2.1, r1.2 ++ r2.2))
-  let switched := threads.any (fun t => t.2.isSome)
+  let switched := threads.any (fun t => t.2.isSome) || cfg.any (fun t => !t.loc.named)
   let threads := threads.map (fun t => t.1)
   -- all threads interleaved
   let gs := interleave threads sched
